@@ -127,6 +127,8 @@ class C08(Prop):
         if lane == "seams":
             w["motif"] = rng.choice([0, 1, 2])
             w["aview"] = max(w["aview"], 2)
+        elif rng.random() < 0.4:
+            w["motif"] = 0.7
         cfg["weights"] = w
         g = Gen(rng, cfg)
         if not cfg["initial_guard"]:
@@ -324,6 +326,52 @@ class C08(Prop):
         g.emit(ev)
 
     def _g_motif(self, g, w, d):
+        if g.r.random() < 0.5:
+            return self._g_motif_idreuse(g, w, d)
+        return self._g_motif_buffer(g, w, d)
+
+    def _g_motif_buffer(self, g, w, d):
+        """the pre-allocated-buffer pattern: several out= targets that are views of one caller
+        buffer (taken before anything is locked), written by independent ops, released in a
+        random order"""
+        if d > 0 or not g.tracking:
+            return
+        r = g.r
+        n = r.randint(2, 3)
+        k = r.randint(1, 3)
+        buf = g.arr(shape=(n * k,), dtype="f8")
+        views = []
+        for i in range(n):
+            v = g.new_h()
+            ix = slice(i * k, (i + 1) * k)
+            g.emit({"k": "aview", "out": v, "src": buf, "index": enc_index(ix)})
+            g.a[v] = g.a[buf][ix]
+            g.a_ro[v] = False
+            views.append(v)
+        results = []
+        for v in views:
+            x = g.leaf(shape=(k,), dtype="f8")
+            before = len(g._sink)
+            h = g._emit_op(r.choice(["add", "mul"]), [{"t": x}, {"c": 2.0}], spell="f", out_arr=v)
+            if h is None:
+                continue
+            g.a[v][...] = g.t[h].val
+            g.t[h].val = g.a[v]
+            g.t[h].born = -1
+            results.append(h)
+            if r.random() < 0.3:
+                self._g_unary(g, w, d)
+        r.shuffle(results)
+        for h in results[: r.randint(1, len(results))] if results else []:
+            how = r.random()
+            if how < 0.5:
+                g.drop_t(h, cycle=r.random() < 0.15)
+            elif how < 0.75:
+                g.clear(h)
+            else:
+                g.backward(h)
+
+    def _g_motif_idreuse(self, g, w, d):
         """fault-placement motif for the lock tables (biasing, not an oracle): two caller arrays
         each kept locked by a long-lived result; a view of the first is used, released (so it has
         to wait for its base) and dropped while waiting; a view of the second is created next -
@@ -538,7 +586,8 @@ class EpochGen:
                 if fl:
                     g.inplace_ufunc(g.choice(fl))
             elif k == "setshape":
-                g.setshape(src)
+                views = [x for x in cur if g.t[x].val.base is not None]
+                g.setshape(g.choice(views) if views and g.coin(0.8) else src)
             elif k == "drop":
                 if len(cur) > 2:
                     g.drop_t(src, cycle=False)
@@ -630,9 +679,10 @@ class C04(Prop):
             "tape": False,
             "exact": rng.random() < 0.5,
             "const_flags": rng.random() < 0.3,
+            "f_order_p": rng.choice([0, 0, 0.4]),
         }
         w = {"view": rng.choice([3, 6]), "adv": 1, "read": rng.choice([1, 3]), "setitem": rng.choice([2, 5]), "iop": rng.choice([1, 3]),
-             "ufunc": rng.choice([1, 3]), "setshape": rng.choice([0, 0, 1, 2]), "drop": rng.choice([0, 1]), "leaf": 0.5, "fail": 0}
+             "ufunc": rng.choice([1, 3]), "setshape": rng.choice([0, 1, 2, 3]), "drop": rng.choice([0, 1]), "leaf": 0.5, "fail": 0}
         if cfg["lane"] == "faults":
             w["fail"] = 2
             cfg["kernel_fault_p"] = 0.05
@@ -675,6 +725,7 @@ class C05(Prop):
             "tape": True,
             "exact": rng.random() < 0.5,
             "const_flags": rng.random() < 0.25,
+            "f_order_p": rng.choice([0, 0, 0.4]),
         }
         if cfg["exact"]:
             cfg["dtypes"] = ["f8"]
@@ -754,6 +805,7 @@ class C01(Prop):
             "tape": True,
             "exact": rng.random() < 0.5,
             "const_flags": rng.random() < 0.4,
+            "f_order_p": rng.choice([0, 0.3, 0.6]),
         }
         if cfg["exact"]:
             cfg["dtypes"] = ["f8"]
